@@ -727,6 +727,19 @@ def refused_reload_keeps_pull_auth(ctx, info, rng):
         head_n % "  max_batch 7\n" + own("/m9", "/pull/m2", "pt-m9") + own("/m3", "/pull/m3", "pt-m3"))
     add("own-only:route-replaced", head_n % "" + own("/m2", "/pull/m2", "pt-m2") + own("/m3", "/pull/m3", "pt-m3"),
         head_n % "  max_wait 9s\n" + own("/m9", "/pull/m9", "pt-m9") + own("/m3", "/pull/m3", "pt-m3"))
+    # a token VALUE rotated behind an unchanged reference (env: / file:), then a reload that succeeds: from then on the new value is the
+    # token and the old one is nobody's - the state decides like a process started now on the same file
+    rot_head = ('ingress {\n  listen ":18080"\n}\npull_api {\n  listen ":19443"\n  auth token "env:VERIF_C11_GLOBAL"\n}\n'
+                'admin_api {\n  listen "127.0.0.1:19444"\n  auth token "file:__DIR__/admin.tok"\n}\n')
+    rot_routes = plain + '"/m2" {\n  pull {\n    path /pull/m2\n    auth token "env:VERIF_C11_M2"\n  }\n}\n'
+    rot_tokens = ["", "g-old", "g-new", "m2-old", "m2-new", "adm-old", "adm-new"]
+    rot_probes = {"ingress": [], "pull": [{"path": p_, "token": t} for p_ in ("/pull/m1", "/pull/m2") for t in rot_tokens],
+                  "admin": [{"method": "GET", "path": "/healthz", "token": t} for t in rot_tokens],
+                  "worker": [{"path": p_, "token": t} for p_ in ("/pull/m1", "/pull/m2") for t in rot_tokens], "seed_routes": ["/m1", "/m2"]}
+    for nm, new_text in (("same-file", rot_head + rot_routes), ("route-added", rot_head + rot_routes + '"/m3" {\n  pull { path /pull/m3 }\n}\n')):
+        cases.append({"name": "rotated-values:" + nm, "kind": "control", "running": rot_head + rot_routes, "new": new_text, "probes": rot_probes, "limit_hit": None,
+                      "expect": "ok", "env_set": {"VERIF_C11_GLOBAL": "g-old", "VERIF_C11_M2": "m2-old"}, "env_set2": {"VERIF_C11_GLOBAL": "g-new", "VERIF_C11_M2": "m2-new"},
+                      "files": {"admin.tok": "adm-old\n"}, "files2": {"admin.tok": "adm-new\n"}})
     rc, out, err = C.harness_run(info["hbin"], ["reload-failed"], {"dir": os.path.join(ctx.scratch, "c11refused"), "cases": cases}, timeout=300)
     if rc != 0:
         raise RuntimeError("reload-failed (C11 refused restart reload) failed: " + err[-1500:])
@@ -734,6 +747,17 @@ def refused_reload_keeps_pull_auth(ctx, info, rng):
     for c, r in zip(cases, json.loads(out)):
         if r.get("setup_error"):
             raise RuntimeError("refused-reload case %s: %s" % (c["name"], r["setup_error"]))
+        if c["expect"] == "ok":
+            if not r["reload_ok"]:
+                raise RuntimeError("rotated-values case %s: the reload was refused (%s)" % (c["name"], r.get("new_compile_error")))
+            stats["rotated_value_reloads"] = stats.get("rotated_value_reloads", 0) + 1
+            if not r.get("fp_equals_fresh_new"):
+                C.report(ctx, "reload-keeps-rotated-out-token:%s" % c["name"].split(":")[1],
+                         "token values were rotated behind unchanged env: / file: references and the configuration was reloaded successfully; the state does not "
+                         "decide like a process started on the same file now (- fresh process, + reloaded state): %s" % "; ".join((r.get("fp_fresh_diff") or [])[:8]),
+                         {"kind": "fault_sequence", "case": {"running_config": c["running"], "new_config": c["new"], "env_before": c["env_set"], "env_at_reload": c["env_set2"],
+                                                              "files_at_reload": c["files2"]}, "observed": (r.get("fp_fresh_diff") or [])[:40]})
+            continue
         if r["reload_ok"] or not r["needs_restart"]:
             raise RuntimeError("refused-reload case %s: the new file was expected to need a restart (reload_ok=%s needs_restart=%s %s)" % (
                 c["name"], r["reload_ok"], r["needs_restart"], r.get("new_compile_error")))
